@@ -20,9 +20,30 @@ structure POp where
   f : Frame
   deriving FromJson
 
+/-- a table call as the check sends it: the builder chain is spelled out and folded by `C14.writerState` -/
+inductive OpIn
+  | save (n : String) (calls : List Call) (arg : Option String) (f : Frame)    -- df.write.<calls>.saveAsTable(n, mode=arg)
+  | insertInto (n : String) (calls : List Call) (f : Frame)                    -- df.write.<calls>.insertInto(n)
+  | read (n : String)
+  | drop (n : String)
+  deriving FromJson
+
+def OpIn.toOp : OpIn → Op
+  | .save n calls arg f => .save n arg (writerState calls).mode f
+  | .insertInto n calls f => .insertInto n (writerState calls).byName f
+  | .read n => .read n
+  | .drop n => .drop n
+
+/-- the same call read by the specification -/
+def OpIn.toSpecOp : OpIn → Op
+  | .save n calls arg f => .save n arg (specChain calls).mode f
+  | .insertInto n calls f => .insertInto n (specChain calls).byName f
+  | .read n => .read n
+  | .drop n => .drop n
+
 structure Case where
   case : Nat
-  ops : Option (List Op) := none
+  ops : Option (List OpIn) := none
   pops : Option (List POp) := none
   gen : Option Bool := none
   deriving FromJson
@@ -49,11 +70,12 @@ def genDump : Json :=
 def opName : Op → String
   | .save n _ _ _ => n | .insertInto n _ _ => n | .read n => n | .drop n => n
 
-def tableSteps : List Op → St → Cat → List Json → List Json
+def tableSteps : List OpIn → St → Cat → List Json → List Json
   | [], _, _, acc => acc.reverse
-  | o :: os, st, sc, acc =>
+  | oi :: os, st, sc, acc =>
+    let o := oi.toOp
     let m := step o st
-    let s := specStep o sc
+    let s := specStep oi.toSpecOp sc
     let n := opName o
     let j := Json.mkObj [
       ("model", resJson m.2), ("mcat", catJson m.1.cat),
